@@ -190,3 +190,40 @@ func NormBoundary(method string, v any) any {
 	}
 	return g
 }
+
+// HiddenPayload reports a Point (at any depth) whose Coordinates value carries a non-zero Z or M although
+// its coordinate type has no such dimension (the Coordinates documentation promises zero there); "" if none.
+func HiddenPayload(g geom.Geometry) string {
+	check := func(p geom.Point) string {
+		c, ok := p.Coordinates()
+		if !ok {
+			return ""
+		}
+		if !c.Type.Is3D() && c.Z != 0 {
+			return fmt.Sprintf("Point %v has coordinate type %v but Z=%v", c.XY, c.Type, c.Z)
+		}
+		if !c.Type.IsMeasured() && c.M != 0 {
+			return fmt.Sprintf("Point %v has coordinate type %v but M=%v", c.XY, c.Type, c.M)
+		}
+		return ""
+	}
+	switch {
+	case g.IsPoint():
+		return check(g.MustAsPoint())
+	case g.IsMultiPoint():
+		mp := g.MustAsMultiPoint()
+		for i := 0; i < mp.NumPoints(); i++ {
+			if s := check(mp.PointN(i)); s != "" {
+				return s
+			}
+		}
+	case g.IsGeometryCollection():
+		gc := g.MustAsGeometryCollection()
+		for i := 0; i < gc.NumGeometries(); i++ {
+			if s := HiddenPayload(gc.GeometryN(i)); s != "" {
+				return s
+			}
+		}
+	}
+	return ""
+}
